@@ -28,8 +28,8 @@ from typing import Any
 
 from .._exceptions import EngineError
 from .._marker_relation import MarkerRelation
-from .._operation_relations import BinaryOperationRelation
-from .._operations import Chain, Deduplication, Projection, Slice, Sort
+from .._operation_relations import BinaryOperationRelation, UnaryOperationRelation
+from .._operations import Calculation, Chain, Deduplication, Projection, Slice, Sort
 from .._relation import Relation
 from .._unary_operation import UnaryOperation
 
@@ -215,6 +215,16 @@ class Select(MarkerRelation):
             # Projection would drop.
             target = sort._finish_apply(target)
         if projection is not None:
+            if not sort.terms:
+                # Applying the Projection elides upstream Calculations whose
+                # columns it drops (see Projection.simplify); skip over them as
+                # well, so that walking from target still arrives at skip_to.
+                while (
+                    isinstance(skip_to, UnaryOperationRelation)
+                    and isinstance(skip_to.operation, Calculation)
+                    and skip_to.operation.tag not in projection.columns
+                ):
+                    skip_to = skip_to.target
             target = projection._finish_apply(target)
         if deduplication is not None:
             target = deduplication._finish_apply(target)
